@@ -197,6 +197,29 @@ class Adapter:
   def row_values(self, out, nrows):
     raise NotImplementedError
 
+  # How the library itself evaluates ONE batch without merging anything:
+  # 'new' = CallableMetric.new(batch) (what __call__ uses), 'add_return' = the
+  # value add() returns is documented as the batch result. None = no such path.
+  one_batch_path = None
+  # False when new() drops configuration (e.g. batch_score_fn), so that the
+  # batch state cannot be fed further batches in the adapter's row format.
+  new_state_is_accumulator = True
+
+  def one_batch_state(self, rows):
+    """State of one batch built without merge (object API), or None."""
+    if self.one_batch_path == 'new' and (rows or self.allows_empty_batch):
+      return self.make().new(*self.args(rows))
+    return None
+
+  def one_batch_obs(self, rows):
+    """('ok', canon) of the batch evaluated without any merge, or None."""
+    if self.one_batch_path == 'new':
+      st = self.one_batch_state(rows)
+      return None if st is None else ('ok', self.observe(st, st.result()))
+    if self.one_batch_path == 'add_return' and (rows or self.allows_empty_batch):
+      return ('ok', self.canon(self.feed(self.make(), rows)))
+    return None
+
   def scribble(self, result):
     raise NotImplementedError
 
@@ -298,6 +321,8 @@ def _score_rows(batch):
 class MeanAd(Adapter):
   """Mean / MeanAndVariance / Var over 1-D, 2-D (3 columns) or scored rows."""
 
+  one_batch_path = 'new'
+
   modes = ('obj', 'aggfn')
 
   def __init__(self, cls_name, shape):
@@ -306,6 +331,7 @@ class MeanAd(Adapter):
     self.covers = (cls_name,)
     self.name = f'{cls_name}/{shape}'
     self.scale = 1e3 if cls_name == 'Mean' else 1e6
+    self.new_state_is_accumulator = shape != 'scored'
 
   def build(self):
     cls = getattr(_rs(), self.cls_name)
@@ -402,6 +428,7 @@ class MinMaxAd(Adapter):
 
 class HistogramAd(Adapter):
   family = 'Histogram'
+  one_batch_path = 'new'
   covers = ('Histogram',)
   modes = ('obj', 'aggfn')
   allows_empty_batch = True
@@ -441,6 +468,7 @@ class HistogramAd(Adapter):
 
 class CounterAd(Adapter):
   family = 'Counter'
+  one_batch_path = 'new'
   covers = ('Counter',)
   modes = ('obj', 'aggfn')
   allows_empty_batch = True
@@ -470,6 +498,7 @@ class _ZipStrictMixin:
 
 class UnboundedSamplerAd(_ZipStrictMixin, Adapter):
   family = 'UnboundedSampler'
+  one_batch_path = 'new'
   empty_operand_key = 'unbounded-sampler-merge-empty-operand-raises'
   covers = ('UnboundedSampler',)
   modes = ('obj', 'aggfn')
@@ -516,6 +545,10 @@ class ValueAccumulatorAd(_ZipStrictMixin, Adapter):
     self.variant = variant
     self.name = f'ValueAccumulator/{variant}'
     self.allows_empty_batch = variant in ('concat_list', 'two_columns')
+    # new() builds the batch state without concat_fn / metric_fns, so it is only
+    # a merge operand inside add(), not a stand-alone accumulator: no merge-free
+    # path is compared for this class.
+    self.one_batch_path = None
 
   def build(self):
     VA = _rs().ValueAccumulator
@@ -692,6 +725,7 @@ def _utils():
 
 class MeanStateAd(Adapter):
   family = 'MeanState'
+  one_batch_path = 'new'
   covers = ('MeanState',)
   allows_empty_batch = True
   scale = 1e3
@@ -717,6 +751,7 @@ class MeanStateAd(Adapter):
 
 class TupleMeanStateAd(_ZipStrictMixin, Adapter):
   family = 'TupleMeanState'
+  one_batch_path = 'new'
   empty_operand_key = 'tuple-mean-state-merge-empty-operand-raises'
   covers = ('TupleMeanState',)
   allows_empty_batch = True
@@ -748,6 +783,11 @@ class FrequencyStateAd(Adapter):
 
   def args(self, rows):
     return (list(rows),)
+
+  one_batch_path = 'new'
+
+  def one_batch_state(self, rows):
+    return _utils().FrequencyState(counter=collections.Counter(rows), count=len(rows))
 
   def add(self, acc, items):
     # FrequencyState has no add(): a batch enters as a batch state that is
@@ -1085,6 +1125,7 @@ def _text(rng):
 
 class TopKWordNGramsAd(Adapter):
   family = 'TopKWordNGrams'
+  one_batch_path = 'add_return'
   covers = ('TopKWordNGrams',)
   modes = ('obj', 'aggfn')
   allows_empty_batch = True
@@ -1108,6 +1149,7 @@ class TopKWordNGramsAd(Adapter):
 
 class PatternFrequencyAd(Adapter):
   family = 'PatternFrequency'
+  one_batch_path = 'add_return'
   covers = ('PatternFrequency',)
   modes = ('obj', 'aggfn')
   allows_empty_batch = True
